@@ -23,7 +23,28 @@ void rf_value(int ptype, int tlen, int ci, int r, int p, uint8_t* out, ref_str* 
     default: if (p == 3) { static char b[64][16]; static int q; char* o = b[q++ & 63]; s->n = (uint32_t)sprintf(o, "v%d_%d", r, ci); s->p = (const uint8_t*)o; } else { s->p = (const uint8_t*)SP[k % 7].p; s->n = SP[k % 7].n; } break;
     }
 }
+/* chains: rep codes of the groups above the leaf, then the leaf's own repetition (0 req, 1 opt, 2 repeated) */
+static const int CHAIN[RF_NCTX][4] = { { -1 }, { 1, 0, -1 }, { 1, 1, -1 }, { 2, -1 }, { 1, 2, 1, -1 }, { 2, 2, -1 }, { 0, 1, 2, -1 } };
+void rf_ctx_levels(int ctx, int opt, int* md, int* mr, int th[3]) {
+    int d = 0, r = 0; th[0] = th[1] = th[2] = 0;
+    if (ctx == RF_CTX_FLAT) { *md = opt ? 1 : 0; *mr = 0; return; }
+    for (int i = 0; CHAIN[ctx][i] >= 0; i++) { if (CHAIN[ctx][i] == 1) d++; else if (CHAIN[ctx][i] == 2) { d++; r++; th[r - 1] = d; } }
+    *md = d; *mr = r;
+}
 void rf_column(ref_arena* a, const rfile_t* f, int ci, int rg, ref_coldata* o) {
+    if (f->ctx[ci] != RF_CTX_FLAT || f->defs[ci]) {
+        int w = ref_type_width(f->col[ci].ptype, f->col[ci].tlen); int N = f->N, th[3];
+        memset(o, 0, sizeof *o); o->ptype = f->col[ci].ptype; o->type_length = f->col[ci].tlen; rf_ctx_levels(f->ctx[ci], f->col[ci].opt, &o->max_def, &o->max_rep, th); o->nlevels = N;
+        o->def = ref_alloc(a, sizeof(int16_t) * (size_t)(N + 1)); o->rep = ref_alloc(a, sizeof(int16_t) * (size_t)(N + 1));
+        o->fixed = ref_alloc(a, (size_t)(w ? w : 1) * (size_t)(N + 1)); o->strs = ref_alloc(a, sizeof(ref_str) * (size_t)(N + 1));
+        for (int r = 0; r < N; r++) {
+            o->def[r] = f->defs[ci] ? f->defs[ci][r] : (int16_t)o->max_def; o->rep[r] = f->reps[ci] ? f->reps[ci][r] : 0; if (o->def[r] != o->max_def) continue;
+            ref_str s = { 0, 0 }; rf_value(o->ptype, o->type_length, ci, r + rg * N, f->pattern, o->fixed + o->nvalues * (w ? w : 1), &s);
+            if (o->ptype == PT_BYTE_ARRAY) { uint8_t* cp = ref_alloc(a, s.n + 1); memcpy(cp, s.p, s.n); o->strs[o->nvalues].p = cp; o->strs[o->nvalues].n = s.n; }
+            o->nvalues++;
+        }
+        return;
+    }
     int w = ref_type_width(f->col[ci].ptype, f->col[ci].tlen); int N = f->N;
     memset(o, 0, sizeof *o); o->ptype = f->col[ci].ptype; o->type_length = f->col[ci].tlen; o->max_def = f->col[ci].opt; o->nlevels = N;
     o->def = ref_alloc(a, sizeof(int16_t) * (size_t)(N + 1)); o->rep = ref_alloc(a, sizeof(int16_t) * (size_t)(N + 1));
@@ -37,24 +58,35 @@ void rf_column(ref_arena* a, const rfile_t* f, int ci, int rg, ref_coldata* o) {
 }
 int rf_build(ref_arena* a, const rfile_t* f, ref_buf* img, ref_pageinfo* pages, int maxpages, int* npages, ref_coldata* cols) {
     int nrg = f->nrg > 0 ? f->nrg : 1;
-    ref_schema_elem* sc = ref_alloc(a, sizeof(ref_schema_elem) * (size_t)(f->ncols + 1));
+    ref_schema_elem* sc = ref_alloc(a, sizeof(ref_schema_elem) * (size_t)(f->ncols * 4 + 1)); int ns = 1;
     sc[0].name = (ref_bin){ (const uint8_t*)"schema", 6, true }; sc[0].has_num_children = true; sc[0].num_children = f->ncols;
     static const char* DN[] = { "c0", "c1", "c2", "c3" };
-    for (int c = 0; c < f->ncols; c++) { ref_schema_elem* e = &sc[c + 1]; const char* nm = f->col[c].name ? f->col[c].name : DN[c]; e->name = (ref_bin){ (const uint8_t*)nm, (int32_t)strlen(nm), true };
-        e->has_type = true; e->type = f->col[c].ptype; e->has_rep = true; e->rep = f->col[c].opt ? 1 : 0; if (f->col[c].ptype == PT_FLBA) { e->has_type_length = true; e->type_length = f->col[c].tlen; } }
+    for (int c = 0; c < f->ncols; c++) {
+        int leafrep = f->col[c].opt ? 1 : 0;
+        if (f->ctx[c] != RF_CTX_FLAT) {
+            int len = 0; while (CHAIN[f->ctx[c]][len] >= 0) len++;
+            for (int i = 0; i < len - 1; i++) { ref_schema_elem* g = &sc[ns++]; char* nm = ref_alloc(a, 16); sprintf(nm, "g%d_%d", c, i); g->name = (ref_bin){ (const uint8_t*)nm, (int32_t)strlen(nm), true }; g->has_rep = true; g->rep = CHAIN[f->ctx[c]][i]; g->has_num_children = true; g->num_children = 1; }
+            leafrep = CHAIN[f->ctx[c]][len - 1];
+        }
+        ref_schema_elem* e = &sc[ns++]; const char* nm = f->col[c].name ? f->col[c].name : DN[c]; e->name = (ref_bin){ (const uint8_t*)nm, (int32_t)strlen(nm), true };
+        e->has_type = true; e->type = f->col[c].ptype; e->has_rep = true; e->rep = leafrep; if (f->col[c].ptype == PT_FLBA) { e->has_type_length = true; e->type_length = f->col[c].tlen; }
+    }
     ref_chunk_layout* L = ref_alloc(a, sizeof(ref_chunk_layout) * (size_t)(nrg * f->ncols)); int64_t* rows = ref_alloc(a, sizeof(int64_t) * (size_t)nrg);
     for (int g = 0; g < nrg; g++) { rows[g] = f->N;
         for (int c = 0; c < f->ncols; c++) { rf_column(a, f, c, g, &cols[g * f->ncols + c]); ref_chunk_layout* l = &L[g * f->ncols + c];
             l->codec = f->codec; l->value_encoding = f->enc[c]; l->npages = f->npages[c]; memcpy(l->page_levels, f->page_levels[c], sizeof l->page_levels); l->level_form = f->level_form; l->index_form = f->index_form; l->index_bw_extra = f->index_bw_extra;
-            l->crc = f->crc; l->dict_offset_present = f->dict_offset_present; l->data_offset_at_dict = f->data_offset_at_dict; l->v2 = f->v2; l->level_encoding = f->level_encoding; } }
-    ref_write_req rq; memset(&rq, 0, sizeof rq); rq.schema = sc; rq.nschema = f->ncols + 1; rq.nleaves = f->ncols; rq.nrg = nrg; rq.rg_rows = rows; rq.cols = cols; rq.layouts = L; rq.fl = f->fl;
+            if (c == 0) { int64_t r0 = 0; for (int64_t i = 0; i < cols[g * f->ncols].nlevels; i++) if (cols[g * f->ncols].max_rep == 0 || cols[g * f->ncols].rep[i] == 0) r0++; rows[g] = r0; }
+            l->chunk_stats = f->chunk_stats[c]; l->page_stats = f->page_stats[c]; l->crc = f->crc; l->dict_offset_present = f->dict_offset_present; l->data_offset_at_dict = f->data_offset_at_dict; l->v2 = f->v2; l->level_encoding = f->level_encoding; } }
+    ref_write_req rq; memset(&rq, 0, sizeof rq); rq.schema = sc; rq.nschema = ns; rq.nleaves = f->ncols; rq.nrg = nrg; rq.rg_rows = rows; rq.cols = cols; rq.layouts = L; rq.fl = f->fl;
     return ref_pq_write(a, &rq, img, pages, maxpages, npages);
 }
 const char* rf_desc(const rfile_t* f) {
     static char b[2][600]; static int r; char* o = b[r++ & 1]; int k = 0;
     static const char* T[] = { "bool", "i32", "i64", "i96", "f32", "f64", "str", "flba" };
     k += snprintf(o + k, 600 - (size_t)k, "cols=");
-    for (int c = 0; c < f->ncols; c++) { k += snprintf(o + k, 600 - (size_t)k, "%s%s%s/e%d/m0x%llx/p", c ? "," : "", T[f->col[c].ptype], f->col[c].opt ? "?" : "", f->enc[c], (unsigned long long)f->mask[c]);
+    for (int c = 0; c < f->ncols; c++) { k += snprintf(o + k, 600 - (size_t)k, "%s%s%s/e%d/m0x%llx/x%d", c ? "," : "", T[f->col[c].ptype], f->col[c].opt ? "?" : "", f->enc[c], (unsigned long long)f->mask[c], f->ctx[c]);
+        if (f->defs[c]) { k += snprintf(o + k, 600 - (size_t)k, "/L"); for (int r = 0; r < f->N && k < 560; r++) k += snprintf(o + k, 600 - (size_t)k, "%d.%d,", f->reps[c] ? f->reps[c][r] : 0, f->defs[c][r]); }
+        k += snprintf(o + k, 600 - (size_t)k, "/p");
         if (!f->npages[c]) k += snprintf(o + k, 600 - (size_t)k, "1"); for (int p = 0; p < f->npages[c]; p++) k += snprintf(o + k, 600 - (size_t)k, "%s%d", p ? "+" : "", f->page_levels[c][p]); }
     snprintf(o + k, 600 - (size_t)k, ";n=%d;rg=%d;codec=%d;crc=%d;lf=%d;if=%d;bwx=%d;pat=%d;dofs=%d%d;v2=%d;lenc=%d;tf=%d%d;unk=%d%s", f->N, f->nrg ? f->nrg : 1, f->codec, f->crc, f->level_form, f->index_form, f->index_bw_extra, f->pattern,
              f->dict_offset_present, f->data_offset_at_dict, f->v2, f->level_encoding, f->fl.tform.long_field_headers, f->fl.tform.long_list_headers, f->fl.unknown_kind, f->fl.unknown_at_end ? "e" : "");
